@@ -592,7 +592,14 @@ fn op_match(cmd: &Value) -> Value {
     else if let Some(re) = t["re"].as_str() {
         match regex::Regex::new(re) {
             Ok(r) => json!({"ok": true,
-                            "results": paths.iter().map(|p| json!({"m": r.is_match(p)})).collect::<Vec<_>>()}),
+                            "results": paths.iter().map(|p| {
+                                // the regex crate's own view of the groups (ground truth for the
+                                // index mapping of MatchedText)
+                                let caps: Option<Vec<Option<String>>> = r.captures(p).map(|c| {
+                                    c.iter().map(|g| g.map(|g| g.as_str().to_string())).collect()
+                                });
+                                json!({"m": r.is_match(p), "caps": caps})
+                            }).collect::<Vec<_>>()}),
             Err(err) => json!({"ok": false, "err": err.to_string()}),
         }
     }
